@@ -29,6 +29,7 @@ func checkC16(r *Report, p *Program) {
 	r16_2(r, p)
 	r16_5(r, p, dec)
 	r16_6(r, p, dec)
+	keyCompleteness(r, p, "R16.7", "updateStrategyMapKey", "selectorMapKey")
 }
 
 func r16_1(r *Report, p *Program, e *syncEntry) {
@@ -58,6 +59,8 @@ func r16_1(r *Report, p *Program, e *syncEntry) {
 		if !ok {
 			why = "the object written is " + E(obj) + ", not a DeepCopy of the observed target"
 		} else {
+			// a copy of a copy is as good as the copy itself
+			c = innermostCopy(c)
 			copyCall = c
 			src := c.Common().Args[0]
 			if e.SyncObj == nil || !engine.SameValue(src, engine.ResultValue(e.SyncObj.Instr, 0)) {
@@ -235,7 +238,9 @@ func r16_2(r *Report, p *Program) {
 	key, valv := l.Key, l.Val
 	isNull := func(a string) bool { return a == "("+E(valv)+" == nil)" }
 	exists := func(a string) bool { return a == "p0["+E(key)+"]#1" }
-	same := func(a string) bool { return strings.HasPrefix(a, "(") && strings.Contains(a, "p0["+E(key)+"]#0") && strings.Contains(a, " == ") }
+	same := func(a string) bool {
+		return strings.HasPrefix(a, "(") && strings.Contains(a, "p0["+E(key)+"]#0") && strings.Contains(a, " == ")
+	}
 	ok, why := true, ""
 	var rows []map[string]string
 	for _, pa := range paths {
@@ -457,7 +462,7 @@ func r16_6(r *Report, p *Program, e *syncEntry) {
 	ok, why := stamp != nil && setAnn != nil, "attachments are not stamped with decorator-controller = dc.Name"
 	if ok {
 		wq := engine.Query{Fn: f, From: []engine.Point{{B: inner.Body}},
-			Target: func(in ssa.Instruction) bool { return in.Block() == inner.Header || in.Block() == inner.Exit },
+			Target:   func(in ssa.Instruction) bool { return in.Block() == inner.Header || in.Block() == inner.Exit },
 			CutInstr: func(in ssa.Instruction) bool { return in == setAnn },
 			CutEdge: func(b *ssa.BasicBlock, i int, l *Lit) bool {
 				return l != nil && l.Pos && l.Op.String() == "==" && strings.Contains(l.Atom, `["metacontroller.k8s.io/decorator-controller"]`) && strings.Contains(l.Atom, ".dc.ObjectMeta.Name")
